@@ -1,6 +1,7 @@
 From Coq Require Import Extraction ExtrOcamlBasic.
-From PV Require Import Lib.ExtractBase Model.Waiter Model.WaiterPool.
+From PV Require Import Lib.ExtractBase Model.Waiter Model.WaiterPool Model.SchedLeafConc Model.WaiterLeaf.
 Extraction Language OCaml.
 Extraction "extracted/C04_model.ml" xb_types wait is_slow_down decide run_inst return_lower wcurrent worig wfixed
   wstate_init spec_token_b spec_decision_b max_overdue profile_offsets configured_discard
-  run_pool instance_discard schedules_built never_ahead_b.
+  run_pool instance_discard schedules_built never_ahead_b
+  first_shots spec_first_b doat_progs flagfirst_progs.
